@@ -141,6 +141,21 @@ return _R
         'last': "if thresholds[-1] is None:\n    ___\nelse:\n    _B = thresholds[-1] - thresholds[-2]\n    _R += [" + SEG.format(lo='-2', w='_B') + "]",
     }
     nlen = find(pv.node, '_N = len(thresholds)')
+    # positive part: the width against which the first segment is clipped
+    bw = find(pv.node, "if thresholds[0] is None:\n    ___\nelse:\n    ___\n    _R = [bioMax(Numeric(0), bioMin(variable - thresholds[0], __W))]")
+    if bw is not None:
+        from ..core import inline_locals
+
+        from ..cfg import cfg_of as _cfg_of
+
+        wn = bw['__W'][1]
+        cpv = _cfg_of(pv.node)
+        origins = cpv.origins(wn, cpv.node_of(wn)) if isinstance(wn, ast.Name) else [wn]
+        ws = sorted({unparse(o).replace(' ', '') for o in origins})
+        w = ' / '.join(ws)
+        okw = ws == ['thresholds[1]-thresholds[0]']
+        ctx.add('C17.R6', 'piecewise_variables:first-width', okw, pv, 'the first segment is clipped at its own length t1 - t0' if okw
+                else f'the first segment is clipped at {w} instead of the length thresholds[1] - thresholds[0] of the interval: with t0 != 0 the variables no longer sum to the distance from the first threshold', w, positive=True)
     for what, pat in parts.items():
         ok = has(pv.node, pat) and nlen is not None
         ctx.add('C17.R6', f'piecewise_variables:{what}', ok, pv, f'{what} segment is max(0, min(x - t_i, t_i+1 - t_i)) (open ends handled)' if ok else f'the {what} segment of piecewise_variables changed', what)
